@@ -72,6 +72,13 @@ func genUnary(r *gen.R, op string, validOnly bool) (mon.OpReq, Expect, bool) {
 			}
 		}
 	}
+	if dt.IsFloat() && !validOnly && r.Chance(0.04) { // zeros of both signs side by side (every element is mapped on its own)
+		for i := range x.Bits {
+			if r.Chance(0.85) {
+				x.Bits[i] = ref.EncF(dt, r.PickFloat(0, math.Copysign(0, -1)))
+			}
+		}
+	}
 	if op == "PRelu" {
 		var ss []int
 		valid := validOnly || r.Chance(0.85)
@@ -130,7 +137,28 @@ func c10Run(c *Ctx) {
 	}
 	c.Distinct("operator-dtype", op+"/"+x.DT.String())
 	mo := mon.ModelOpts{InitMask: uint64(c.R.Intn(4)), RawInits: c.R.Bool()}
-	CheckOp(c, req, exp, c.Idx%4 == 0, mo, c10Known)
+	ok := CheckOp(c, req, exp, c.Idx%4 == 0, mo, c10Known)
+	// the odd functions map a zero to the zero of the same sign (IEEE 754 / C99 for sin, tan,
+	// asin, atan, sinh, tanh, asinh, atanh): the tolerance comparison does not look at that sign
+	if ok && oddAtZero[op] && x.DT.IsFloat() && exp.Kind == MustEqual {
+		hasZero := false
+		for i := range x.Bits {
+			if x.F(i) == 0 {
+				hasZero = true
+			}
+		}
+		if hasZero {
+			if o, _ := mon.RunOpAPI(req); o.Kind == mon.Value && len(o.Vals) == 1 && o.Vals[0] != nil && len(o.Vals[0].Bits) == len(x.Bits) {
+				c.Eval(1)
+				for i := range x.Bits {
+					if x.F(i) == 0 && o.Vals[0].F(i) == 0 && math.Signbit(x.F(i)) != math.Signbit(o.Vals[0].F(i)) {
+						c.Violation(op+":wrong-value", "element %d: %s(%v) = %v: the zero of the other sign | request: %s", i, op, x.F(i), o.Vals[0].F(i), trunc(req.Describe(), 400))
+						break
+					}
+				}
+			}
+		}
+	}
 	if c.Idx%9000 == 11 {
 		s := map[string]any{"request": trunc(req.Describe(), 300), "expectation": exp.Kind.String()}
 		if len(exp.Want) > 0 && exp.Want[0] != nil {
@@ -139,5 +167,7 @@ func c10Run(c *Ctx) {
 		c.Sample(s)
 	}
 }
+
+var oddAtZero = map[string]bool{"Sin": true, "Tan": true, "Asin": true, "Atan": true, "Sinh": true, "Tanh": true, "Asinh": true, "Atanh": true}
 
 func c10Known(req mon.OpReq, exp Expect, o mon.Outcome, v Verdict) string { return "" }
